@@ -2,6 +2,7 @@ package main
 
 import (
 	"fmt"
+	"sync"
 	"go/types"
 	"math/big"
 	"os"
@@ -33,6 +34,8 @@ type Engine struct {
 	repoDir          string
 	overlay          map[string][]byte
 	LoadSeconds      float64
+	mergeCache       map[*ssa.Function]bool
+	mu               sync.RWMutex
 }
 
 // LoadEngine loads repo packages (patterns relative to repoDir) with overlay files.
@@ -67,6 +70,7 @@ func LoadEngine(repoDir string, patterns []string, overlay map[string][]byte) (*
 		maxConcreteAlloc: 1 << 16,
 		initPkgs:         map[string]bool{},
 		repoDir:          repoDir, overlay: overlay,
+		mergeCache:       map[*ssa.Function]bool{},
 	}
 	for _, p := range prog.AllPackages() {
 		e.ssaPkgs[p.Pkg.Path()] = p
@@ -118,6 +122,8 @@ type PathResult struct {
 	Model       map[string]string `json:"model,omitempty"` // for panic / reach witness
 	Notes       []string          `json:"notes,omitempty"`
 	Choices     map[string]int    `json:"choices,omitempty"`
+	Merges      int               `json:"merges,omitempty"`
+	MergeAborts int               `json:"merge_aborts,omitempty"`
 	Outputs     map[string]string `json:"outputs,omitempty"`
 }
 
